@@ -1671,3 +1671,50 @@ R.mutant("benign-dict-setitem-delitem-membership-flag", COLL,
          sub("        def __delitem__(self, key, _sa_initiator=None):\n            if key in self:\n                __del(self, self[key], _sa_initiator, key)\n            fn(self, key)\n",
              "        def __delitem__(self, key, _sa_initiator=None):\n            if key not in self:\n                fn(self, key)\n                return\n            leaving = self[key]\n            __del(self, leaving, _sa_initiator, key)\n            fn(self, key)\n"),
          None)
+# breaking edits on top of the refactored shapes
+_SYNC_DEF_BAD = ("    def _sync_members(collection, want):\n        have = set(collection)\n        for item in have - want:\n            collection.add(item)\n"
+                 "        for item in want - have:\n            collection.add(item)\n\n    def intersection_update(fn):\n")
+R.mutant("set-sync-closure-never-removes", COLL,
+         _chain(sub("            want, have = self.intersection(other), set(self)\n" + _SYNC, "            _sync_members(self, self.intersection(other))\n", count=2),
+                sub("            want, have = self.symmetric_difference(other), set(self)\n" + _SYNC, "            _sync_members(self, self.symmetric_difference(other))\n", count=2),
+                sub("    def intersection_update(fn):\n", _SYNC_DEF_BAD),
+                sub("        _tidy(__ixor__)\n        return __ixor__\n\n    l = locals().copy()\n    l.pop(\"_tidy\")\n",
+                    "        _tidy(__ixor__)\n        return __ixor__\n\n    l = locals().copy()\n    l.pop(\"_tidy\")\n    l.pop(\"_sync_members\")\n")),
+         "C38-R2")
+R.mutant("dict-update-put-closure-skips-store", COLL,
+         _chain(sub(_PUT_OLD, _PUT_NEW),
+                sub("    def update(fn):\n        def update(self, __other=NO_ARG, **kw):\n", _PUT_DEF.replace("        else:\n            mapping[key] = value\n", "")),
+                sub("        _tidy(__ior__)\n        return __ior__\n\n    l = locals().copy()\n    l.pop(\"_tidy\")\n    return l\n\n\n_set_binop_bases",
+                    "        _tidy(__ior__)\n        return __ior__\n\n    l = locals().copy()\n    l.pop(\"_tidy\")\n    del l[\"_put\"]\n    return l\n\n\n_set_binop_bases")),
+         "C38-R6")
+R.mutant("dict-update-put-closure-announces-for-different-value", COLL,
+         _chain(sub(_PUT_OLD, _PUT_NEW),
+                sub("    def update(fn):\n        def update(self, __other=NO_ARG, **kw):\n", _PUT_DEF.replace("if key in mapping and mapping[key] is value:", "if key in mapping:")),
+                sub("        _tidy(__ior__)\n        return __ior__\n\n    l = locals().copy()\n    l.pop(\"_tidy\")\n    return l\n\n\n_set_binop_bases",
+                    "        _tidy(__ior__)\n        return __ior__\n\n    l = locals().copy()\n    l.pop(\"_tidy\")\n    del l[\"_put\"]\n    return l\n\n\n_set_binop_bases")),
+         "C38-R9")
+R.mutant("list-remove-events-module-function-after-call", COLL,
+         _chain(sub("                for item in self[index]:\n                    __del(self, item, None, index)\n                fn(self, index)\n",
+                    "                leaving = self[index]\n                fn(self, index)\n                __del_each(self, leaving, index)\n"),
+                sub("def _list_decorators() -> Dict[str, Callable[[_FN], _FN]]:\n",
+                    "def __del_each(collection, items, key):\n    for item in items:\n        __del(collection, item, None, key)\n\n\n"
+                    "def _list_decorators() -> Dict[str, Callable[[_FN], _FN]]:\n")),
+         "C38-R2")
+R.mutant("set-ior-inverted-arms-check-not-negated", COLL,
+         sub("            if not _set_binops_check_strict(self, value):\n                return NotImplemented\n            for item in value:\n                self.add(item)\n            return self\n",
+             "            if not _set_binops_check_strict(self, value):\n                for item in value:\n                    self.add(item)\n                return self\n            return NotImplemented\n"),
+         "C38-R3")
+R.mutant("canned-roles-early-continue-without-marker-test", COLL,
+         sub("            fn = getattr(cls, method, None)\n            if (\n                fn\n                and method not in methods\n                and not hasattr(fn, \"_sa_instrumented\")\n            ):\n                setattr(cls, method, decorator(fn))\n",
+             "            fn = getattr(cls, method, None)\n            if not fn or method in methods:\n                continue\n            already = hasattr(fn, \"_sa_instrumented\")\n            if already:\n                pass\n            setattr(cls, method, decorator(fn))\n"),
+         "C38-R8")
+R.mutant("list-setitem-noop-inverted-wrong-way", COLL,
+         sub("                    if value is self:\n                        return\n", "                    if value is not self:\n                        return\n"),
+         "C38-R6")
+R.mutant("list-tidy-returns-wrapper-unmarked", COLL,
+         _chain(sub("    def _tidy(fn):\n        fn._sa_instrumented = True\n        fn.__doc__ = getattr(list, fn.__name__).__doc__\n",
+                    "    def _tidy(fn):\n        fn._sa_instrumented = True\n        fn.__doc__ = getattr(list, fn.__name__).__doc__\n        return fn\n\n"
+                    "    def _plain(fn):\n        return fn\n"),
+                sub("        _tidy(append)\n        return append\n", "        return _plain(append)\n"),
+                sub("    l = locals().copy()\n    l.pop(\"_tidy\")\n    return l\n\n\ndef _dict_decorators()", "    l = locals().copy()\n    l.pop(\"_tidy\")\n    l.pop(\"_plain\")\n    return l\n\n\ndef _dict_decorators()")),
+         "C38-R8")
